@@ -249,3 +249,12 @@ def run(ctx):
     nonzero_instances(ctx, em, "R12.6", "every fee message an Open / Close chain can emit carries a fee that is non-zero by a fact of the emitting path (a fee is transferred iff it is non-zero)", 5,
                       lambda ckey: ckey.startswith(("OpenPosition>", "ClosePosition>")), "the zero transfer is rejected and the trade reverts, while a non-zero fee is not charged",
                       select=is_fee_amount)
+
+    # ---------------------------------------------------------------- R12.7
+    # "routed to the right pools": the pools are the ones the owner configured - a fee-pool / insurance-fund address supplied
+    # in UpdateConfig is the one the stored Config carries afterwards (round-17 seed C12s: an "empty update" shortcut that
+    # listed every optional field but fee_pool acknowledged the update and kept paying the toll to the old pool)
+    from .cfgupdate import update_sticks
+    ctx.rule("R12.7", "a fee-pool / insurance-fund address supplied in the engine's UpdateConfig is stored (the Config stored last carries it)", 2)
+    update_sticks(ctx, "R12.7", "margined_engine", only=("fee_pool", "insurance_fund"))
+
